@@ -66,6 +66,8 @@ pub struct GenOpts {
   pub generic_param_forwarding: bool,
   /// .iregexp / .pcre next to .regexp over the same pattern pool (C14: results must not depend on other calls)
   pub text_ctl_variants: bool,
+  /// a group rule whose body is nothing but a reference to another group rule (open finding C08-F2 when off)
+  pub group_alias_bodies: bool,
 }
 
 impl Default for GenOpts {
@@ -106,6 +108,7 @@ impl Default for GenOpts {
       choice_from_named_group: true,
       generic_param_forwarding: true,
       text_ctl_variants: false,
+      group_alias_bodies: true,
     }
   }
 }
@@ -821,7 +824,7 @@ impl<'a, 'b, 'o> SemGen<'a, 'b, 'o> {
             (0..ne)
               .map(|_| {
                 // occasionally a reference to a later group rule (nested group references, nested generics)
-                if self.o.map_group_refs && self.t.chance(1, 6) {
+                if self.o.map_group_refs && (self.o.group_alias_bodies || (nc > 1 || ne > 1)) && self.t.chance(1, 6) {
                   if let Some((name, args)) = self.group_ref(d) {
                     return Ent { occ: None, kind: EntKind::Ref { name, args } };
                   }
